@@ -406,7 +406,7 @@ impl Prop for C04 {
         ]
     }
     fn cases(&self, tier: Tier) -> u32 {
-        tier.pick(500, 12_000)
+        tier.pick(1500, 12_000)
     }
     fn strategy(&self, _tier: Tier) -> BoxedStrategy<Case> {
         let delay = prop_oneof![Just(4u16), Just(5u16), Just(6u16), Just(144u16), Just(2016u16), 4u16..2017];
